@@ -1,7 +1,7 @@
 """Which properties are claimed (with technique and level text) and which are not."""
 CLAIMED = {
     "C15": {
-        "technique": "MIR guard-liveness dataflow + origin tracing of the locked mutex + dominance of Arc::ptr_eq (lock-order/typestate analysis)",
+        "technique": "MIR guard-liveness dataflow + origin tracing of the locked mutex + dominance of Arc::ptr_eq (lock-order/typestate analysis); address-ordered acquisition and caller-side distinctness proofs for locking helpers; must-pass-through of the element comparison on every path that answers true; delegation check of join",
         "level": "Decides the clause 'comparing two lists always terminates' and lock hygiene for every body that takes a Mutex: all CFG paths, all lock sites of the crate; does not decide results of operation histories (run-time values).",
         "note": "Partial: structural clauses M1/M2 only.",
     },
@@ -21,7 +21,7 @@ CLAIMED = {
         "note": "Partial: clauses T1-T4.",
     },
     "C20": {
-        "technique": "sibling-table cross-check of the evaluator's per-instruction arms against the code generator's (HIR table extraction, operand-origin tracing), divergence check of every catch-all arm, assertion-before-access ordering",
+        "technique": "sibling-table cross-check of the evaluator's per-instruction arms against the code generator's (HIR table extraction, operand-origin tracing), divergence check of every catch-all arm, assertion-before-access ordering; argument-position provenance in all 16 ir_function adapter instances",
         "level": "Decides mirror agreement arm by arm (all Instruction variants, all IntCmp/FloatCmp rows, all arithmetic rows), loud fallbacks and checked-memory ordering; equality of results over all scripts is not decided.",
         "note": "Partial: clauses V1-V4. Memory::get's missing frame-id check is reported as a cross-reference only (no witness IR).",
     },
@@ -36,17 +36,17 @@ CLAIMED = {
         "note": "Partial: clauses S1, S3.",
     },
     "C06": {
-        "technique": "interprocedural byte/char unit taint on MIR with parameter summaries; constant-offset inventory against a reviewed table; call-graph reachability of todo!()/unimplemented!() from the compile entry points; HIR arm checks (occurs check before binding, type-argument traversal, character_range at every ariadne call)",
+        "technique": "interprocedural byte/char unit taint on MIR with parameter summaries; constant-offset inventory against a reviewed table; call-graph reachability of todo!()/unimplemented!() from the compile entry points; HIR arm checks (occurs check before binding, type-argument traversal, character_range at every ariadne call); same-span agreement of file name, converted span and text for every report label; explicit-panic inventory against a reviewed table; progress measure of the import fixpoint (count compared with the count at the start of the same round)",
         "level": "Decides five necessary conditions (U1-U5), each of which located a real crash on this tree; panic-freedom and termination of the whole front end on arbitrary text is NOT decided (hundreds of invariant-dependent unwrap/ice! sites).",
         "note": "Partial: clauses U1-U5.",
     },
     "C09": {
-        "technique": "symbolic evaluation of the precedence/associativity tables into the full 13x13 relation and comparison with the documented grammar; round-trip cross-checks of sibling spelling tables (lexer bytes, Token Display, keywords, Token->BinOp, suffix names); dominance order of the token recognisers; byte/char unit taint in the lexer",
+        "technique": "symbolic evaluation of the precedence/associativity tables into the full 13x13 relation and comparison with the documented grammar; round-trip cross-checks of sibling spelling tables (lexer bytes, Token Display, keywords, Token->BinOp, suffix names); dominance order of the token recognisers; byte/char unit taint in the lexer; finite-domain evaluation (vf/symex.py) of the escape state machines of the string/char scanners over all (state, character class) pairs; literal-only brace collapse in f-strings",
         "level": "Decides the grouping relation for every ordered pair of binary operators and the agreement of all spelling tables; the value denoted by each literal spelling (escapes, number parsing) is NOT decided.",
         "note": "Partial: clauses P1-P4.",
     },
     "C18": {
-        "technique": "must-pass-through on MIR (check_name / declare_runtime_* gates), dominance order of the registration passes, loop-accumulator feedback by origin tracing, panic-site inventory over call-graph-reachable registration code against a reviewed (kind, producer) table",
+        "technique": "must-pass-through on MIR (check_name / declare_runtime_* gates), dominance order of the registration passes, loop-accumulator feedback by origin tracing, panic-site inventory over call-graph-reachable registration code against a reviewed (kind, producer) table; sibling agreement of the recursive passes (scope handed to the recursion), lookup-decides-insertion checks for imports and context types (mir.decided_by), whole-name span comparison in name validation",
         "level": "Decides the structural clauses I1-I5 (validation at every constructor, pass order, duplicate -> error, never a panic on the registration path, path walking); that every item is reachable under every library is not decided.",
         "note": "Partial: clauses I1-I5.",
     },
@@ -71,7 +71,7 @@ CLAIMED = {
         "note": "Partial: clauses O1-O3.",
     },
     "C03": {
-        "technique": "frame-depth dataflow on the MIR of every lowering method (push/pop of stack_slots told apart by the Vec's element type), drain check of every popped frame, 'visit after new_block must own a frame' (typestate of conditionally/repeatedly executed regions), who-may-call for emit_return, dominance chains in assign and RotoFunc::invoke",
+        "technique": "frame-depth dataflow on the MIR of every lowering method (push/pop of stack_slots told apart by the Vec's element type), drain check of every popped frame, 'visit after new_block must own a frame' (typestate of conditionally/repeatedly executed regions), who-may-call for emit_return, dominance chains in assign and RotoFunc::invoke; may-dataflow of 'limbo tokens' (values outside the frames: unregistered temporaries, unregistered call arguments, popped frames) up to every descent into a sub-expression, with helper and per-element-closure summaries",
         "level": "Decides the MIR lowerer's frame bookkeeping structurally on all CFG paths of all lowering methods - the mechanism that makes generated drops balance; the clone/drop balance of a particular script's generated code is not decided.",
         "note": "Partial: clauses F1-F6.",
     },
@@ -81,12 +81,12 @@ CLAIMED = {
         "note": "Partial: clauses D1-D3.",
     },
     "C19": {
-        "technique": "HIR table extraction of the exit-code and verdict tables, MIR def-use error discipline over every fallible step of cli_inner, counting/aggregation shape of run_tests, cross-site agreement of the test-name prefix literal (incl. format_args pieces) and its lexical unspellability",
+        "technique": "HIR table extraction of the exit-code and verdict tables, MIR def-use error discipline over every fallible step of cli_inner, counting/aggregation shape of run_tests, cross-site agreement of the test-name prefix literal (incl. format_args pieces) and its lexical unspellability; all-definitions check of the symbol-table key in get_function (package prefix on every path)",
         "level": "Decides the small table-like clauses X1-X3 exhaustively (all arms, all call sites); what a particular script's tests do is not decided.",
         "note": "Partial (thin): clauses X1-X3.",
     },
     "C13": {
-        "technique": "dominance/ordering of the lookups in resolve_name on MIR (declarations < recurse test < imports < parent, hit returns early), HIR checks of the path walker's loop-carried state, ADT/derive table of the name key, must-pass-through in imports(), cross-site agreement of discovery and export literals",
+        "technique": "dominance/ordering of the lookups in resolve_name on MIR (declarations < recurse test < imports < parent, hit returns early), HIR checks of the path walker's loop-carried state, ADT/derive table of the name key, must-pass-through in imports(), cross-site agreement of discovery and export literals; path rule 'flag false after every further segment fetch' (segments after super); index-provenance rule for the module tree (child index = position of the child's own push, through helper returns)",
         "level": "Decides the lookup order and path-walking rules stated by the property as structural facts of the two functions that implement them, plus key identity and literal agreement; what each reference resolves to in a given tree is not decided.",
         "note": "Partial (thin): clauses R1-R6.",
     },
